@@ -2,3 +2,16 @@
 ; apply_str(f, s): result of applying the (pure, deterministic) string
 ; transform held in a func-typed field to s.
 (declare-fun apply_str (Int Str) Str)
+; Scopes (C07): what a scope designates for a bare name (uninterpreted; the
+; implementation Module.Lookup* is proved to be exactly its map lookup).
+(declare-fun scopeHasType (Iface Str) Bool)
+(declare-fun scopeType (Iface Str) Iface)
+(declare-fun scopeHasConst (Iface Str) Bool)
+(declare-fun scopeConst (Iface Str) Int)
+(declare-fun scopeHasService (Iface Str) Bool)
+(declare-fun scopeService (Iface Str) Int)
+(declare-fun scopeHasInclude (Iface Str) Bool)
+(declare-fun scopeInclude (Iface Str) Iface)
+; strIndexRune(s, r): least index of rune r in s, -1 if absent (strings.IndexRune)
+(declare-fun strIndexRune (Str (_ BitVec 32)) (_ BitVec 64))
+(declare-fun fsAbs (Iface Str) Str)
